@@ -401,15 +401,75 @@ def _own_map(model, fn, kw, sub):
     comp = comps[0]
     var = comp.generators[0].target.elts[1].id
 
+    class Aff:
+        """the index array i -> a * i + b over the cells"""
+        skv_isarray = True
+
+        def __init__(self, a, b):
+            self.a, self.b = a, b
+
+        def skv_binop(self, op, other, reflected):
+            if isinstance(other, int) and isinstance(op, ast.Mult):
+                return Aff(self.a * other, self.b * other)
+            if isinstance(other, int) and isinstance(op, ast.Add):
+                return Aff(self.a, self.b + other)
+            raise Unsupported("arithmetic on a child table")
+
+        def at(self, k):
+            return Poly.coerce(k) * self.a + self.b
+
+    class Table:
+        """rows of a child table: table[:, k] lists the children of cell k"""
+        skv_isarray = True
+
+        def __init__(self, rows):
+            self.rows = rows
+
+        def skv_getitem(self, ix):
+            if isinstance(ix, tuple) and len(ix) == 2 and \
+                    ix[0] == slice(None):
+                return Flat([r.at(ix[1]) for r in self.rows])
+            raise Unsupported("index into a child table")
+
+    class Flat(list):
+        def skv_getattr(self, name):
+            if name in ("flatten", "ravel"):
+                return PyFunc(lambda a, k, n: list(self))
+            raise Unsupported("children." + name)
+
     def hook(interp, nm, args, kwargs, node):
         if nm == "numpy.concatenate":
             return list(args[0])
         if nm in ("numpy.sort", "numpy.unique"):
             return args[0]
+        if nm == "numpy.arange" and len(args) == 1:
+            return Aff(1, 0)
+        if nm == "numpy.vstack" and all(isinstance(x, Aff)
+                                        for x in args[0]):
+            return Table(list(args[0]))
+        if nm in ("numpy.asarray", "numpy.array") and args:
+            return args[0]
         return NotImplemented
+    # local tables the map refers to (kids = np.vstack((2 * np.arange(nt),
+    # ...))) are evaluated with the same hooks
+    env = {var: Poly.sym("k")}
+    it_ = Interp(model, call_hook=hook)
+    for n in sorted((n for n in walk_no_nested(fn.node)
+                     if isinstance(n, ast.Assign) and len(n.targets) == 1
+                     and isinstance(n.targets[0], ast.Name)
+                     and n.lineno < comp.lineno),
+                    key=lambda n: n.lineno):
+        if any(isinstance(x, ast.Name) and x.id == n.targets[0].id
+               for x in ast.walk(comp.value)):
+            try:
+                env[n.targets[0].id] = it_.eval(
+                    n.value, {"t": Obj(None, {"shape": (2, Poly.sym("nt"))}),
+                              **env}, fn.module)
+            except Unsupported as e:
+                raise AnalysisError(f"{fn.short()}: table "
+                                    f"{n.targets[0].id}: {e}")
     try:
-        r = Interp(model, call_hook=hook).eval(
-            comp.value, {var: Poly.sym("k")}, fn.module)
+        r = it_.eval(comp.value, env, fn.module)
     except Unsupported as e:
         raise AnalysisError(f"{fn.short()}: subdomain map outside grammar: "
                             f"{e}")
@@ -1515,9 +1575,9 @@ MUTANTS = [
       "_adaptive", "            _subdomains=None,\n        )\n\n    def "
       "_adaptive"), "C12-R2"),
     ("line refinement maps cell k to 2k and 2k+2",
-     (_LI, "                                              2 * "
-      "np.asarray(ixs) + 1)))", "                                          "
-      "    2 * np.asarray(ixs) + 2)))"), "C12-R2"),
+     (_LI, "                              2 * np.arange(t.shape[1]) + 1))",
+      "                              2 * np.arange(t.shape[1]) + 2))"),
+     "C12-R2"),
     ("subdomain warning tests the input again",
      (_ME, "        if has_subdomains and m.subdomains is None:",
       "        if has_subdomains and self.subdomains is None:"), "C12-R4"),
